@@ -14,6 +14,11 @@ import (
 // Insertions relative to the reference are discarded, so all the sequences are the same (=reference) length
 func ToMultiAlign(samIn io.Reader, out io.Writer, wrap int, trimstart int, trimend int, pad bool, threads int) error {
 
+	// a worker pool needs at least one worker (--threads 0 used to hang, negative values to panic)
+	if threads < 1 {
+		threads = 1
+	}
+
 	cSR := make(chan samRecords, threads)
 	cReadDone := make(chan bool)
 
